@@ -506,16 +506,26 @@ func (g *gen) switchStmt() *S {
 	return s
 }
 
-// caseBody: empty (stacked label), falling through, or ending in break.
+// caseBody: empty (stacked label), falling through, or ending in break. A `break` written
+// directly in the case body is always its last statement (the switch parser ends the case
+// there and rejects what follows).
 func (g *gen) caseBody() []*S {
+	cut := func(b []*S) []*S {
+		for i, s := range b {
+			if s.K == "break" {
+				return b[:i+1]
+			}
+		}
+		return b
+	}
 	switch g.r.Intn(10) {
 	case 0, 1:
 		return nil
 	case 2, 3, 4:
-		return g.nested(true, func() []*S { return g.block(g.r.Range(1, 2)) })
+		return cut(g.nested(true, func() []*S { return g.block(g.r.Range(1, 2)) }))
 	default:
 		b := g.nested(true, func() []*S { return g.block(g.r.Range(1, 2)) })
-		return append(b, Break(1))
+		return cut(append(b, Break(1)))
 	}
 }
 
@@ -567,7 +577,10 @@ func (g *gen) function(info *fnInfo, callable []*fnInfo, size int) *Fn {
 		g.intVars = append(g.intVars, vStatic+i)
 	}
 	if info.recursive {
+		left := g.selfCall
+		g.selfCall = 0 // the base case does not recurse
 		body = append(body, If(Bin("le", Var(vParam), Int(0)), []*S{g.ret()}, nil))
+		g.selfCall = left
 	}
 	if info.nstatics > 0 && g.r.Chance(80) {
 		body = append(body, ExprS(Inc("postinc", vStatic)))
